@@ -351,7 +351,13 @@ func (x *fx) havocAllMem(tagp string) {
 	h.set = nil
 	base := x.frameVsEntry(x.curMem)
 	ghostMods := x.pendingGhostMods
+	// frames are produced lazily, when a later instruction first reads the memory:
+	// the call they describe is the one being executed NOW
+	atInstr, atCallee := x.curInstr, x.curCallee
 	h.frame = func(n, nv, ov string) {
+		saveI, saveC := x.curInstr, x.curCallee
+		x.curInstr, x.curCallee = atInstr, atCallee
+		defer func() { x.curInstr, x.curCallee = saveI, saveC }()
 		if strings.HasPrefix(n, "$g.") && ghostMods[n] {
 			return // changed by the callee: fully described by its ensures
 		}
@@ -698,7 +704,7 @@ func (x *fx) applyContract(c2 *Contract, f *ssa.Function, sig *types.Signature, 
 			res = x.havocVal("ret."+sanitize(name), sig.Results())
 		}
 	}
-	envPost := &specEnv{mem: x.curMem, pkg: pkgT, top: x.curTop()}
+	envPost := &specEnv{mem: x.curMem, pkg: pkgT, top: x.curTop(), callSite: true}
 	envPost.look = func(n string) *Val {
 		if strings.HasPrefix(n, "result") && res != nil {
 			k := 0
